@@ -204,9 +204,9 @@ NextSlackBoundary == \E a \in Thirds, b \in Thirds, b1 \in Bx, b2 \in Bx, atMin 
         inst == Inst("min", << V(1, "integer", b1), V(2, "integer", b2) >>, K(Zero), << C(7, "le", f) >>, <<>>, <<>>) IN
     IF conv THEN vec' = Ev("slack_convert", [inst |-> inst, cid |-> 7, max |-> 1000, ub |-> 0, points |-> PtsOfBox(b1, b2)])
     ELSE vec' = Ev("slack_add", [inst |-> inst, cid |-> 7, max |-> 0, ub |-> 3, points |-> PtsOfBox(b1, b2)])
-NextSlackRejects == \E why \in {"unknown", "equality", "continuous", "nofn", "removed"}, conv \in BOOLEAN :
+NextSlackRejects == \E why \in {"unknown", "equality", "unspecified", "continuous", "nofn", "removed"}, conv \in BOOLEAN :
     LET base == Inst("min", << V(1, "integer", B(R(0), R(2))), V(2, IF why = "continuous" THEN "continuous" ELSE "integer", B(R(0), R(2))) >>, K(Zero),
-                     << [C(7, IF why = "equality" THEN "eq" ELSE "le", L(<< T(1, R(1)), T(2, R(1)) >>, R(-1))) EXCEPT !.f = IF why = "nofn" THEN <<>> ELSE @] >>,
+                     << [C(7, IF why = "equality" THEN "eq" ELSE IF why = "unspecified" THEN "unspecified" ELSE "le", L(<< T(1, R(1)), T(2, R(1)) >>, R(-1))) EXCEPT !.f = IF why = "nofn" THEN <<>> ELSE @] >>,
                      << Rm(C(8, "le", L(<< T(1, R(1)) >>, R(-1))), "r") >>, <<>>)
         cid == IF why = "unknown" THEN 99 ELSE IF why = "removed" THEN 8 ELSE 7 IN
     vec' = Ev(IF conv THEN "slack_convert" ELSE "slack_add", [inst |-> base, cid |-> cid, max |-> 1000, ub |-> 2, points |-> PtsOfBox(B(R(0), R(2)), B(R(0), R(2)))])
